@@ -171,6 +171,8 @@ Qed.
 (* ---- N-row branch with N = 4, rows (p,q), (q,p), (-p,q), (q,-p): no shortcut, the formula on every row (the same
    value on all four), for all unit quaternions *)
 Definition four (v : R) : list R := [v; v; v; v].
+Lemma clip_inert u : -1 <= u <= 1 -> Rmin (Rmax u (-1)) 1 = u.
+Proof. intros [H1 H2]. rewrite Rmax_left by lra. rewrite Rmin_left by lra. reflexivity. Qed.
 Lemma qeip_batch_spec a b c d w x y z : unit4 a b c d -> unit4 w x y z ->
   C18_qeip_batch_R a b c d w x y z = Val (four (1 - Rabs (dot4 a b c d w x y z))).
 Proof.
@@ -180,11 +182,12 @@ Qed.
 Lemma qcip_batch_spec a b c d w x y z : unit4 a b c d -> unit4 w x y z ->
   C18_qcip_batch_R a b c d w x y z = Val (four (acos (Rabs (dot4 a b c d w x y z)))).
 Proof.
-  intros Hp Hq. unfold unit4 in Hp, Hq. orient_unit. unfold C18_qcip_batch_R. unit_norms.
-  canon_dot a b c d w x y z. reflexivity.
+  intros Hp Hq. pose proof (unit4_dot_le1 _ _ _ _ _ _ _ _ Hp Hq) as B. pose proof (Rabs_pos (dot4 a b c d w x y z)) as B0.
+  unfold unit4 in Hp, Hq. orient_unit. unfold C18_qcip_batch_R. unit_norms.
+  canon_dot a b c d w x y z.
+  (* a clip of the arccos argument to [-1, 1] (as in qad) is inert over the reals *)
+  repeat rewrite clip_inert by lra. reflexivity.
 Qed.
-Lemma clip_inert u : -1 <= u <= 1 -> Rmin (Rmax u (-1)) 1 = u.
-Proof. intros [H1 H2]. rewrite Rmax_left by lra. rewrite Rmin_left by lra. reflexivity. Qed.
 Lemma qad_batch_spec a b c d w x y z : unit4 a b c d -> unit4 w x y z ->
   C18_qad_batch_R a b c d w x y z = Val (four (acos (2 * (dot4 a b c d w x y z * dot4 a b c d w x y z) - 1))).
 Proof.
